@@ -2724,6 +2724,111 @@ def run_begin_capture(prop, tier, seed):
     return ev
 
 
+# ---------------------------------------------------------------------------------------------
+# code generator pools (C15): a buffer taken from the per-thread pool is cleared on EVERY path before it is handed
+# out (what an earlier compilation left in it - spans, pending jumps - must not reach the next template)
+# ---------------------------------------------------------------------------------------------
+def check_pool_buffers_cleared(mir):
+    out = []
+    for name in ('take_span_stack_buffer', 'take_pending_block_buffer'):
+        text = function_text(mir, r'^fn (?:compiler::codegen::)?%s\(' % name)
+        if text is None:
+            out.append(dict(function=name, verdict='unknown', conflict='not found in the MIR'))
+            continue
+        fn = parse_function(text)
+        adj, preds = cfg(fn)
+        s_ = z3.Solver()
+        s_.set('timeout', 30000)
+        D = {b: z3.Int('P_%s_%s' % (name, b)) for b in fn['blocks'] if not fn['blocks'][b]['cleanup']}
+        s_.add(D['bb0'] == 0)
+        clears = 0
+        for bid in D:
+            blk = fn['blocks'][bid]
+            _, callee = call_of(blk['term'])
+            hit = bool(callee and re.match(r'(?:std::vec::)?Vec::<[^>]*>::(?:clear|truncate)\(', callee))
+            clears += hit
+            if blk['term'] == 'return;':
+                s_.add(D[bid] == 1)
+            for label, tgt in adj[bid]:
+                if tgt in D:
+                    s_.add(D[tgt] == (1 if (hit and label == 'ok') else D[bid]))
+        t0 = time.time()
+        r = s_.check()
+        res = dict(function=name, clear_calls=clears, blocks=len(D), z3_s=round(time.time() - t0, 3))
+        if r == z3.sat and clears:
+            res.update(verdict='sat')
+        elif r in (z3.sat, z3.unsat):
+            # not cleared when taken: then it has to be cleared on every path on which it is put back
+            rname = name.replace('take_', 'recycle_')
+            rtext = function_text(mir, r'^fn (?:compiler::codegen::)?%s\(' % rname)
+            ok_put = False
+            if rtext is not None:
+                rfn = parse_function(rtext)
+                radj, _ = cfg(rfn)
+                s2 = z3.Solver()
+                R = {b: z3.Int('Q_%s_%s' % (rname, b)) for b in rfn['blocks'] if not rfn['blocks'][b]['cleanup']}
+                s2.add(R['bb0'] == 0)
+                puts = rclears = 0
+                for bid in R:
+                    blk = rfn['blocks'][bid]
+                    _, callee = call_of(blk['term'])
+                    hit = bool(callee and re.match(r'(?:std::vec::)?Vec::<[^>]*>::(?:clear|truncate)\(', callee))
+                    rclears += hit
+                    if callee and re.match(r'LocalKey::<', callee):
+                        s2.add(R[bid] == 1)
+                        puts += 1
+                        continue            # what happens after the buffer went back into the pool is of no interest
+                    for label, tgt in radj[bid]:
+                        if tgt in R:
+                            s2.add(R[tgt] == (1 if (hit and label == 'ok') else R[bid]))
+                ok_put = bool(puts and rclears and s2.check() == z3.sat)
+            if ok_put:
+                res.update(verdict='sat', cleared='when put back (%s)' % rname)
+            else:
+                res.update(verdict='unsat', conflict='%s can hand out a pooled buffer that was cleared neither when it was put back nor when it is taken' % name)
+        else:
+            res.update(verdict=str(r))
+        out.append(res)
+    return out
+
+
+def run_pool_buffers(prop, tier, seed):
+    t0 = time.time()
+    ev = dict(engine='M', violations=[], known_hits=[], problems=[], coverage={})
+    try:
+        mir = dump_mir(REPO, os.path.join(BUILD, 'mir'))
+    except MirError as e:
+        ev['problems'].append('engine M: %s' % e)
+        return ev
+    results = check_pool_buffers_cleared(mir)
+    err = build_tool('vmexits')
+    if err:
+        ev['problems'].append('engine M: native scenario tool did not build: ' + err[-300:])
+        return ev
+    scen = [s for s in run_vmexits() if s['check'] == 'pool_buffers']
+    failing = [s for s in scen if not s['ok']]
+    for r in results:
+        if r['verdict'] == 'sat':
+            continue
+        if r['verdict'] != 'unsat':
+            ev['problems'].append('engine M: %s: %s %s' % (r['function'], r['verdict'], r.get('conflict') or ''))
+            continue
+        if failing:
+            rp = os.path.join(nativelib.replay_dir(), '%s-M-pool-%s.json' % (prop, r['function']))
+            json.dump(dict(engine='M', kind='eval_impl', check='pool_buffers', property=prop, mir_finding=r, scenarios=failing,
+                           how='bin/check %s --replay %s' % (prop, rp)), open(rp, 'w'), indent=1)
+            ev['violations'].append(dict(replay=rp, failed=[dict(desc='%s; native scenario %s: %s' % (r['conflict'], failing[0]['scenario'], failing[0]['detail'][:240]),
+                                                                 loc='minijinja/src/compiler/codegen.rs %s (MIR)' % r['function'])]))
+        else:
+            ev['problems'].append('engine M: %s, but the native recompilation scenario behaves' % r['conflict'])
+    if failing and all(r['verdict'] == 'sat' for r in results):
+        ev['problems'].append('engine M: native scenario %s misbehaves (%s) although pooled buffers are cleared when taken' % (failing[0]['scenario'], failing[0]['detail'][:200]))
+    log('[%s] engine M (codegen pools): %s; %d native scenarios, %d misbehaving' % (prop, ' '.join('%s=%s' % (r['function'], r['verdict']) for r in results), len(scen), len(failing)))
+    ev['coverage'] = dict(queries=len(results), results=results, native_scenarios=len(scen), native_scenarios_failing=len(failing), check='pool_buffers')
+    ev['wall_s'] = round(time.time() - t0, 1)
+    return ev
+
+
 def run_captures(prop, tier, seed):
     t0 = time.time()
     ev = dict(engine='M', violations=[], known_hits=[], problems=[], coverage={})
